@@ -76,6 +76,7 @@ package nsqd
 // Options are stored once at start-up and swapped atomically afterwards; the pointer is never nil.
 //@ func (n *NSQD) getOpts() *Options
 //@   trusted
+//@   nochan
 //@   ensures result != nil && result == curOpts(n)
 //@   modifies
 
